@@ -42,7 +42,7 @@ PROPS = {
         outside=COMMON_OUTSIDE + ["Golomb moduli above the stated bound", "codewords longer than 128 bits"],
     ),
     "C08": dict(
-        prefixes=["c08_"],
+        prefixes=["c08_", "c09_copy"],
         builds={"quick": [("default", [])], "thorough": [("default", []), ("no_copy_impls", ["no_copy_impls"])]},
         level_text="Bounded model checking of the real copy_to (BufBitReader u8..u64, BitReader) and copy_from (BufBitWriter u8..u128) code, optimised paths and (thorough tier, crate rebuilt with no_copy_impls) the generic chunked paths: one copy of symbolic length from an arbitrary reader/writer state to/from a model stream that asserts the bit-stream preconditions at every call; asserts the exact bits transferred, exact advance of both sides and re-establishment of the reader/writer invariants, from which all later operations behave as after a bit-by-bit transfer (C01/C02 hold from every invariant state).",
         assumptions=[
